@@ -374,7 +374,8 @@ func (r *reader) _readEvent(canary byte) (m Message, err error) {
 			m = mm
 
 		default:
-			panic(fmt.Sprintf("must not happen: invalid canary % X", canary))
+			// neither a status byte that is allowed in a SMF nor a running status to apply the data byte to
+			return m, fmt.Errorf("invalid status byte % X at the start of an event", canary)
 		}
 
 		// on a voice/channel category message with status either given or cached (running status)
